@@ -21,6 +21,9 @@ Definition getsaml_body : list bstmt :=
 Definition loop_body : list bstmt :=
   Eval vm_compute in match nth_error getsaml_body 7 with Some (BRange _ _ _ body) => body | _ => [] end.
 
+Lemma unpair_pair a c : unpair (DObj "pair" [("k", a); ("v", c)]) = (a, c).
+Proof. reflexivity. Qed.
+
 Section G.
 Variable o : string -> option dval.
 Notation run_st := (run_st builders o).
@@ -96,7 +99,7 @@ Lemma loop_next k rec fr cs : forall acc n1 a1,
 Proof.
   induction cs as [|c cs IH]; intros acc n1 a1.
   - exists n1, a1. cbn [map range_loop]. now rewrite app_nil_r.
-  - cbn [map range_loop]. destruct c as [[[n0 f0] nf0] vs0]. cbn [custom_dpair].
+  - cbn [map range_loop]. destruct c as [[[n0 f0] nf0] vs0]. cbn [custom_dpair]. rewrite unpair_pair.
     pose proof (body_next k rec acc fr n1 a1 (n0, f0, nf0, vs0)) as B. cbn [fst snd] in B.
     cbn [s_fresh st_in]. cbn [s_fresh st_in] in B. rewrite B.
     destruct (IH (acc ++ [custom_dattr (n0, f0, nf0, vs0)]) (DStr n0)
@@ -109,7 +112,7 @@ Lemma loop_all k rec fr cs acc :
 Proof.
   destruct cs as [|c cs].
   - exists (st_of rec acc fr). cbn [map range_loop]. rewrite app_nil_r. repeat split.
-  - cbn [map range_loop]. destruct c as [[[n0 f0] nf0] vs0]. cbn [custom_dpair].
+  - cbn [map range_loop]. destruct c as [[[n0 f0] nf0] vs0]. cbn [custom_dpair]. rewrite unpair_pair.
     pose proof (body_first k rec acc fr (n0, f0, nf0, vs0)) as B. cbn [fst snd] in B.
     cbn [s_fresh st_of]. cbn [s_fresh st_of] in B. rewrite B.
     destruct (loop_next k rec fr cs (acc ++ [custom_dattr (n0, f0, nf0, vs0)]) (DStr n0)
